@@ -10,7 +10,7 @@ Notation cnt := (count_occ msg_dec).
 
 (* bursts the clock thread holds in local variables (taken out of the queue, not yet emitted / logged), or lost in a crash *)
 Definition local (s : st) : list msg :=
-  match tpc s with TK3 e d | TK4 e d => e ++ d | TCrash l => l | _ => [] end.
+  match tpc s with TK2u e d | TK3 e d | TK4 e d => e ++ d | TCrash l => l | _ => [] end.
 
 (* no burst is ever duplicated or silently lost: multiset equation, for every burst x *)
 Definition Inv (s : st) : Prop :=
@@ -25,11 +25,12 @@ Qed.
 Lemma tick_inv f s : Inv s -> Inv (tick_step f s).
 Proof.
   unfold Inv, tick_step, local. intros H x. specialize (H x).
-  destruct (tpc s) as [| | |e d|e d| |l] eqn:E.
+  destruct (tpc s) as [| | |e d|e d|e d| |l] eqn:E.
   - cbn. exact H.
   - destruct (running s); cbn; exact H.
   - pose proof (part_cnt f (queue s) x) as P. destruct (part f (queue s)) as [[d e] w].
-    destruct e as [|m e]; cbn in *; rewrite ?count_occ_app in *; cbn [count_occ] in *; try destruct (msg_dec m x); lia.
+    cbn in *; rewrite ?count_occ_app in *; lia.
+  - destruct e as [|m e]; cbn in *; rewrite ?count_occ_app in *; cbn [count_occ] in *; try destruct (msg_dec m x); lia.
   - destruct e as [|m rest]; [cbn in *; rewrite ?count_occ_app in *; lia|].
     destruct (fhset s); [cbn in *; exact H|]. unfold after_fwd. destruct rest as [|m2 r2]; cbn in *; rewrite ?count_occ_app in *; cbn [count_occ] in *;
       destruct (msg_dec m x); try destruct (msg_dec m2 x); lia.
@@ -66,8 +67,8 @@ Theorem interleavings_conserve f op sched r fh q : Inv (run f op sched (init r f
 Proof. split; [apply run_inv, init_inv|]. unfold run_all. apply drain_s_inv, drain_t_inv, run_inv, init_inv. Qed.
 
 (* ---- on time: whatever the schedule, only bursts of the tick's own frame are emitted; only past ones are reported stale ---- *)
-Definition pending_e (s : st) : list msg := match tpc s with TK3 e _ | TK4 e _ => e | _ => [] end.
-Definition pending_d (s : st) : list msg := match tpc s with TK3 _ d | TK4 _ d => d | _ => [] end.
+Definition pending_e (s : st) : list msg := match tpc s with TK2u e _ | TK3 e _ | TK4 e _ => e | _ => [] end.
+Definition pending_d (s : st) : list msg := match tpc s with TK2u _ d | TK3 _ d | TK4 _ d => d | _ => [] end.
 Definition Timely (f : Z) (s : st) : Prop :=
   Forall (fun m => snd m = f) (emitted s) /\ Forall (fun m => snd m = f) (pending_e s)
   /\ Forall (fun m => snd m < f) (stale s) /\ Forall (fun m => snd m < f) (pending_d s).
@@ -83,11 +84,12 @@ Qed.
 Lemma tick_timely f s : Timely f s -> Timely f (tick_step f s).
 Proof.
   unfold Timely, tick_step, pending_e, pending_d. intros [H1 [H2 [H3 H4]]].
-  destruct (tpc s) as [| | |e d|e d| |l] eqn:E.
+  destruct (tpc s) as [| | |e d|e d|e d| |l] eqn:E.
   - cbn. repeat split; auto.
   - destruct (running s); cbn; repeat split; auto.
   - pose proof (part_frames f (queue s)) as P. destruct (part f (queue s)) as [[d e] w]. destruct P as [Pd [Pe _]].
-    destruct e as [|m e]; cbn; repeat split; auto; try apply Forall_app; auto.
+    cbn; repeat split; auto.
+  - destruct e as [|m e]; cbn; repeat split; auto; try apply Forall_app; auto.
   - destruct e as [|m rest]; [cbn; repeat split; auto; apply Forall_app; auto|].
     destruct (fhset s); [cbn; repeat split; auto|]. inversion H2 as [|? ? Hm Hr]; subst. unfold after_fwd.
     destruct rest as [|m2 r2]; cbn; repeat split; auto; try (apply Forall_app; split; auto).
@@ -121,10 +123,11 @@ Qed.
 Definition NoHop (s : st) : Prop := fhset s = false /\ match tpc s with TK4 _ _ | TCrash _ => False | _ => True end.
 Lemma tick_nohop f s : NoHop s -> NoHop (tick_step f s).
 Proof.
-  unfold NoHop, tick_step. intros [H1 H2]. destruct (tpc s) as [| | |e d|e d| |l] eqn:E; try contradiction.
+  unfold NoHop, tick_step. intros [H1 H2]. destruct (tpc s) as [| | |e d|e d|e d| |l] eqn:E; try contradiction.
   - cbn. auto.
   - destruct (running s); cbn; auto.
-  - destruct (part f (queue s)) as [[d e] w]. destruct e; cbn; auto.
+  - destruct (part f (queue s)) as [[d e] w]. cbn; auto.
+  - destruct e; cbn; auto.
   - destruct e as [|m rest]; [cbn; auto|]. rewrite H1. unfold after_fwd. destruct rest; cbn; auto.
   - rewrite E. auto.
 Qed.
@@ -147,13 +150,14 @@ Proof.
 Qed.
 
 (* ... and an arrival or a POWERON can never crash it either, hopping or not (only POWEROFF clears fh) *)
-Definition FhKept (s : st) : Prop := fhset s = true /\ match tpc s with TCrash _ => False | _ => True end /\ match spc s with SP1 | SP2 | SP3 | SP4 => False | _ => True end.
+Definition FhKept (s : st) : Prop := fhset s = true /\ match tpc s with TCrash _ => False | _ => True end /\ match spc s with SP1 | SP2 | SP2u | SP3 | SP4 => False | _ => True end.
 Lemma tick_fhkept f s : FhKept s -> FhKept (tick_step f s).
 Proof.
-  unfold FhKept, tick_step. intros [H1 [H2 H3]]. destruct (tpc s) as [| | |e d|e d| |l] eqn:E; try contradiction.
+  unfold FhKept, tick_step. intros [H1 [H2 H3]]. destruct (tpc s) as [| | |e d|e d|e d| |l] eqn:E; try contradiction.
   - cbn. auto.
   - destruct (running s); cbn; auto.
-  - destruct (part f (queue s)) as [[d e] w]. destruct e; cbn; auto.
+  - destruct (part f (queue s)) as [[d e] w]. cbn; auto.
+  - destruct e; cbn; auto.
   - destruct e as [|m rest]; [cbn; auto|]. rewrite H1. cbn. auto.
   - destruct e as [|m rest]; [cbn; auto|]. rewrite H1. unfold after_fwd. destruct rest; cbn; auto.
   - rewrite E. auto.
@@ -180,4 +184,4 @@ Qed.
 (* with hopping configured, POWEROFF racing the tick CAN kill the clock thread: get_tx_freq reads self.fh twice (known finding) *)
 Lemma fh_race_refuted : exists sched,
   tpc (run_all 10 PowerOff sched (init true true [(1, 10)])) = TCrash [(1, 10)].
-Proof. exists [true; true; true; true; false; false; false; false; false; true]. vm_compute. reflexivity. Qed.
+Proof. exists [true; true; true; true; true; false; false; false; false; false; false; true]. vm_compute. reflexivity. Qed.
